@@ -283,6 +283,68 @@ func (c *Ctx) ruleU2(rule string) {
 			continue
 		}
 		eachInstr(f, func(in ssa.Instruction) {
+			// memory hanging off a node (the elements of a slice or map held in one of its fields)
+			// is shared in the same way as the node itself
+			xx0 := c.Index(f)
+			nodeField := func(v ssa.Value) string {
+				var seen func(v ssa.Value, d int) string
+				seen = func(v ssa.Value, d int) string {
+					if d > 4 {
+						return ""
+					}
+					for _, pv := range xx0.PossibleValues(v) {
+						o := pv.V
+						if o == nil {
+							continue
+						}
+						if sl, isSl := o.(*ssa.Slice); isSl {
+							if r := seen(sl.X, d+1); r != "" {
+								return r
+							}
+							continue
+						}
+						ld, isLd := o.(*ssa.UnOp)
+						if !isLd || ld.Op != token.MUL {
+							continue
+						}
+						fa, isFa := ld.X.(*ssa.FieldAddr)
+						if !isFa {
+							continue
+						}
+						nt := namedOf(derefType(fa.X.Type()))
+						if nt == nil || nt.Obj().Pkg() == nil || nt.Obj().Pkg().Path() != pBase || nt.Obj().Name() == "KnowledgeContext" || !c.astTypes()[nt.Obj().Name()] {
+							continue
+						}
+						if _, fresh := xx0.Origin(fa.X).(*ssa.Alloc); fresh {
+							continue
+						}
+						return nt.Obj().Name() + "." + fieldOf(fa).Name()
+					}
+					return ""
+				}
+				return seen(v, 0)
+			}
+			switch t := in.(type) {
+			case *ssa.Store:
+				if c.Prop != "C19" {
+					// scratch memory on a node need not change what a version means; it is a conflicting access
+					break
+				}
+				if ia, isIA := t.Addr.(*ssa.IndexAddr); isIA {
+					if _, isSl := ia.X.Type().Underlying().(*types.Slice); isSl {
+						if nf := nodeField(ia.X); nf != "" {
+							c.Check(rule, fmt.Sprintf("%s#ast-element-store-%s", fnName(f), nf), false, in.Pos(), "an element of the slice held in %s of a compiled rule / AST node is written outside the compile step; the node and what hangs off it are shared by all executions and pool instances", nf)
+						}
+					}
+				}
+			case *ssa.MapUpdate:
+				if c.Prop != "C19" {
+					break
+				}
+				if nf := nodeField(t.Map); nf != "" {
+					c.Check(rule, fmt.Sprintf("%s#ast-map-update-%s", fnName(f), nf), false, in.Pos(), "the map held in %s of a compiled rule / AST node is updated outside the compile step; the node and what hangs off it are shared by all executions and pool instances", nf)
+				}
+			}
 			st, ok := in.(*ssa.Store)
 			if !ok {
 				return
